@@ -15,16 +15,6 @@ namespace TaRs.Gen.RelativeStrengthIndex
 open TaRs TaRs.Rs
 variable {F : Type} [Scalar F]
 
-/-- sequencing of two steps that cannot fail: if the first step succeeds with a result satisfying
-    `P` and the continuation succeeds on every such result, the whole succeeds.  Used with the
-    components' `next_total`, whose input is found by unification: it is never written down. -/
-theorem bind_total {α β : Type} {o : Option α} {f : α → Option β} {P : α → Prop} {Q : β → Prop}
-    (h : ∃ r, o = some r ∧ P r) (k : ∀ r, P r → ∃ q, f r = some q ∧ Q q) :
-    ∃ q, o.bind f = some q ∧ Q q := by
-  obtain ⟨r, e, hp⟩ := h
-  subst e
-  exact k r hp
-
 theorem next_total (s : RelativeStrengthIndex F) (x : F) (h : WF s) :
     ∃ r, s.next x = some r ∧ WF r.1 ∧ r.1.period_fn = s.period_fn := by
   obtain ⟨hu, hd, hpu, hpd⟩ := h
@@ -40,11 +30,6 @@ theorem next_total (s : RelativeStrengthIndex F) (x : F) (h : WF s) :
     -- the output (and the test that selects it) is irrelevant
     repeat' split
     all_goals exact ⟨_, rfl, ⟨wu, wd, pu.trans hpu, pd.trans hpd⟩, rfl⟩)
-
-theorem nextBar_eq (s : RelativeStrengthIndex F) (b : Bar F) : s.nextBar b = s.next b.close := by
-  unfold nextBar
-  try simp only [gen_helper]
-  cases h : s.next b.close <;> simp [h]
 
 theorem nextBar_total (s : RelativeStrengthIndex F) (b : Bar F) (h : WF s) :
     ∃ r, s.nextBar b = some r ∧ WF r.1 ∧ r.1.period_fn = s.period_fn := by
